@@ -16,15 +16,38 @@ RULE = ("programs consisting only of read operations (item access, get, len, ite
         "resources, for all 18 classes. Oracles: the audit-hook monitor records no write-class event (open for "
         "writing, rename/replace, remove, truncate, mkdir, utime ...) anywhere in the case's directory; the "
         "file's (inode, size, mtime_ns, sha256) is unchanged; a missing resource is still missing; the fake "
-        "stores' write counters did not move. Results are also compared with the model. distinct = case "
+        "stores' write counters did not move. Results are also compared with the model. Part next_to_writer (E4): "
+        "the reads of one thread run next to 1-2 writer threads (same object, child of the writer's object, own "
+        "object on the writer's file; unbuffered and inside buffer_backend() of both strategies) under the "
+        "deterministic line-level scheduler; every write-class file-system event is attributed, in the thread "
+        "that performs it, to the client call in progress - none may belong to a read. distinct = case "
         "hash; non-trivial = >= 5 reads executed (and for buffered classes >= 1 context entered).")
 ASSUMPTIONS = ["Redis/MongoDB/Zarr: write detection = write-call counters of the in-process fakes"]
 STRATA = ["existing", "missing"]
 PER = {"quick": {"existing": 300, "missing": 100}, "thorough": {"existing": 1500, "missing": 500}}
 
 
+E4_COMBOS = [("JSONDict", None), ("JSONList", None), ("BufferedJSONDict", "ctx"), ("MemoryBufferedJSONDict", "ctx"),
+             ("BufferedJSONList", None), ("MemoryBufferedJSONList", "ctx"), ("JSONAttrDict", None),
+             ("BufferedJSONDict", None)]
+E4_PROGRAMS = {"quick": 8, "thorough": 150}
+E4_BUDGET = {"quick": 14, "thorough": 1200}
+SHARD_TIMEOUT = {"quick": 600, "thorough": 5400}
+
+
 def plan(tier, seed):
-    return common.plan_grid(tier, seed, common.class_cfgs(all_cfgs=False), PER, STRATA, pieces=4)
+    specs = common.plan_grid(tier, seed, common.class_cfgs(all_cfgs=False), PER, STRATA, pieces=4)
+    # part "next_to_writer": the reads of one thread run next to a writer thread (same object, a child of the
+    # writer's object, or an own object on the writer's file) under the deterministic scheduler
+    for cname, mode in E4_COMBOS:
+        specs.append({"part": "next_to_writer", "cls": cname, "mode": mode, "seed": seed, "tier": tier,
+                      "start": 0, "count": E4_PROGRAMS[tier]})
+        # directed grid: every read operation on the writer's own object (and on a child of it) next to a writer
+        # that resizes the container being read
+        for piece in range(2 if tier == "quick" else 6):
+            specs.append({"part": "next_to_writer", "directed": True, "cls": cname, "mode": mode, "seed": seed,
+                          "tier": tier, "start": 0, "count": 0, "piece": piece, "pieces": 2 if tier == "quick" else 6})
+    return specs
 
 
 def make_case(spec, i):
@@ -208,14 +231,140 @@ def _nontrivial(case, sess):
     return sess.counters["reads"] >= 5 and (not info.buffered or any("enter" in s for s in case["steps"]))
 
 
+def _reader_wrote(prog, res, ops, final, extra):
+    """Verdict of part next_to_writer: a write-class file-system event made inside a read call."""
+    from vf import model as _model
+
+    for tag, ev in extra.get("fs_by_op", []):
+        if tag is None:
+            continue
+        st = prog["threads"][tag[0]][tag[1]]
+        if not _model.is_mutator(st["op"]):
+            return ("reader_wrote", f"T{tag[0]}.{tag[1]} {st['op']}{st.get('args', [])} - a read - performed the "
+                                    f"file-system event {ev} while a writer thread was active")
+    return None
+
+
+def _directed_progs(spec):
+    import copy
+
+    from vf import concgen
+
+    from . import c14
+
+    info = catalog.info(spec["cls"])
+    r = gen.rng_for(spec["seed"], "C17-directed", spec["cls"], spec["mode"])
+    init = copy.deepcopy(concgen.DICT_INIT if info.kind == "dict" else concgen.LIST_INIT)
+    if info.kind == "dict":
+        reads = [("call", []), ("eq", [copy.deepcopy(init)]), ("items", []), ("values", []), ("keys", []), ("iter", []),
+                 ("repr", []), ("len", []), ("getitem", ["a"]), ("get", ["zz", 0]), ("contains", ["a"]), ("ne", [{}])]
+        writers = [("setitem", ["newk", 1]), ("delitem", ["a"]), ("update", ["mapping", {"n1": 1, "n2": 2}, None]),
+                   ("pop", ["b"]), ("setdefault", ["n3", [1]])]
+        child = ["c"]
+        cwriters = [("setitem", ["newk", 1]), ("delitem", ["p"])]
+    else:
+        reads = [("call", []), ("eq", [copy.deepcopy(init)]), ("iter", []), ("repr", []), ("len", []), ("getitem", [0]),
+                 ("contains", [7]), ("count", [7]), ("index", [7]), ("reversed", []), ("lt", [[0]])]
+        writers = [("append", ["w"]), ("pop", []), ("insert", [0, "w"]), ("extend", [["w1", "w2"]]), ("delitem", [0])]
+        child = [2] if isinstance(init[2], (dict, list)) else None
+        cwriters = [("append", ["w"])]
+    out = []
+    for op, args in reads:
+        ws = writers if spec["tier"] == "thorough" else [r.choice(writers)]
+        for wop, wargs in ws:
+            out.append(({"cls": info.name, "init": copy.deepcopy(init), "roots": [[0, 0]], "pre": [],
+                         "threads": [[{"op": wop, "h": 0, "path": [], "args": wargs}],
+                                     [{"op": op, "h": 0, "path": [], "args": args}]]}, "T1_directed"))
+        if child is not None and (spec["tier"] == "thorough" or r.random() < 0.3) and op not in ("eq", "getitem", "index"):
+            wop, wargs = r.choice(cwriters)
+            sub = init
+            for k in child:
+                sub = sub[k]
+            if (isinstance(sub, dict)) == (wop in ("setitem", "delitem")) and op in ("call", "iter", "repr", "len", "items",
+                                                                                  "values", "keys", "reversed"):
+                if not (isinstance(sub, list) and op in ("items", "values", "keys")) and \
+                        not (isinstance(sub, dict) and op == "reversed"):
+                    out.append(({"cls": info.name, "init": copy.deepcopy(init), "roots": [[0, 0]], "pre": [],
+                                 "threads": [[{"op": wop, "h": 0, "path": list(child), "args": wargs}],
+                                             [{"op": op, "h": 0, "path": list(child), "args": args}]]}, "T1c_directed"))
+    for prog, _ in out:
+        if spec["mode"] == "ctx":
+            prog["buffered"] = {"cap": None}
+    return [(p, {"topology": t}, r) for p, t in out]
+
+
+def _run_e4(spec):
+    import time
+
+    from vf import boot, conc
+
+    boot.boot(lock_shim=True)
+    from . import c14
+
+    t0 = time.time()
+    out = {"evaluations": 0, "keys": [], "violations": [], "samples": [], "counters": {}, "strata": {}}
+    c = out["counters"]
+    keys = set()
+    if spec.get("directed"):
+        todo = [t for j, t in enumerate(_directed_progs(spec)) if j % spec["pieces"] == spec["piece"]]
+    else:
+        todo = (c14.make_prog({**spec, "seed": spec["seed"] + 7919}, i)
+                for i in range(spec["start"], spec["start"] + spec["count"]))
+    for prog, meta, r in todo:
+        if time.time() - t0 > E4_BUDGET[spec["tier"]]:
+            c["budget_cut_programs"] = c.get("budget_cut_programs", 0) + 1
+            continue
+        runner = conc.ProgramRunner(prog, watch_fs=True)
+        seen = {"events": 0, "by_reads": 0}
+
+        def verdict(prog_, res, ops, final, extra, _seen=seen):
+            _seen["events"] += len(extra.get("fs_by_op", []))
+            return _reader_wrote(prog_, res, ops, final, extra)
+
+        try:
+            res = conc.explore(prog, runner, r, spec["tier"],
+                               {"cls": prog["cls"], "part": "next_to_writer", "topology": meta["topology"],
+                                "mode": spec["mode"] or "unbuffered"},
+                               policies=("sweep",) if spec["tier"] == "quick"
+                               else ("sweep", "boundary", "two_delay", "random"),
+                               deadline=t0 + E4_BUDGET[spec["tier"]] * 1.5, verdict=verdict)
+        finally:
+            runner.close()
+        out["evaluations"] += res["runs"]
+        pk = gen.case_key(prog)
+        for s_ in res["schedules"]:
+            keys.add((pk ^ s_) & (2**63 - 1))
+        st = out["strata"].setdefault("next_to_writer:" + meta["topology"], {"programs": 0, "runs": 0})
+        st["programs"] += 1
+        st["runs"] += res["runs"]
+        c["e4_runs"] = c.get("e4_runs", 0) + res["runs"]
+        c["e4_interleaved_runs"] = c.get("e4_interleaved_runs", 0) + res["interleaved_runs"]
+        c["e4_write_events_attributed"] = c.get("e4_write_events_attributed", 0) + seen["events"]
+        if res["inconclusive"]:
+            c["inconclusive_runs"] = c.get("inconclusive_runs", 0) + len(res["inconclusive"])
+        # failures of the interleaving itself (lost update, RuntimeError ...) are C14's business (D13), not C17's
+        out["violations"].extend(v for v in res["violations"][:1] if v["sig"]["kind"] == "reader_wrote")
+    out["keys"] = sorted(keys)
+    return out
+
+
 def run_shard(spec):
+    if spec.get("part") == "next_to_writer":
+        return _run_e4(spec)
     return e1.run_shard(spec, make_case, nontrivial=_nontrivial, session_cls=ReadOnlySession)
 
 
 def floors(tier, merged):
     c = merged["counters"]
-    return [("reads_executed", c.get("reads", 0), 5000)]
+    return [("reads_executed", c.get("reads", 0), 5000),
+            ("next_to_writer_runs_with_mid_operation_switch", c.get("e4_interleaved_runs", 0), 300),
+            ("next_to_writer_write_events_attributed_to_a_call", c.get("e4_write_events_attributed", 0), 300)]
 
 
 def replay(case):
+    if "prog" in case:
+        from vf import boot, conc
+
+        boot.boot(lock_shim=True)
+        return conc.replay_one(case, watch_fs=True, verdict=_reader_wrote)
     return e1.run_case(case, session_cls=ReadOnlySession)[0]
